@@ -116,6 +116,12 @@ func longTask(name, log, sleepTag string, sc cancelScenario) *task.Task {
 		body = fmt.Sprintf("echo start-%s >> %s; sh -c 'trap \"\" INT; exec sleep %s'; echo end-%s >> %s", name, log, sleepTag, name, log)
 	}
 	switch sc.Point {
+	case "in-condition":
+		// the cancellation arrives while the task's condition is being evaluated, by a program that answers an interrupt
+		// with an exit status of its own: the task was interrupted before it ran anything - not "skipped, fine"
+		// (the condition would go on for 30 s: it is one of "the commands that are running", the cancellation ends it)
+		t.Condition = fmt.Sprintf("echo start-%s >> %s; sh -c 'sleep %s & p=$!; trap \"kill $p; exit 3\" INT; wait $p'", name, log, sleepTag)
+		t.Commands = []string{fmt.Sprintf("echo cmd-%s >> %s", name, log)}
 	case "in-before-hook":
 		t.Before = []string{body}
 		t.Commands = []string{fmt.Sprintf("echo cmd-%s >> %s", name, log)}
@@ -285,6 +291,46 @@ func cancelChild(args []string) {
 		}
 		obs.RunsReturned = obs.ScheduleReturned
 		obs.LateRunErr = true
+	case "sched-precancel":
+		// the cancellation has COMPLETED before the pipeline is run: nothing of it starts - no task, no stage condition -
+		// no stage ends as if it had succeeded, and the run returns
+		condScript := sc.Log + ".cond.sh"
+		os.WriteFile(condScript, []byte(fmt.Sprintf("#!/bin/sh\necho cond-ran >> %s\nexit 0\n", sc.Log)), 0755)
+		a := longTask("t0", sc.Log, sleepTag, sc)
+		stages := []*scheduler.Stage{
+			{Name: "t0", Task: a, AllowFailure: true},
+			{Name: "t1", Task: longTask("t1", sc.Log, sleepTag, sc), Condition: condScript},
+			{Name: "t2", Task: longTask("t2", sc.Log, sleepTag, sc), DependsOn: []string{"t0"}, AllowFailure: true},
+		}
+		g, err := scheduler.NewExecutionGraph(stages...)
+		if err != nil {
+			fmt.Fprintln(os.Stderr, err)
+			os.Exit(3)
+		}
+		if sc.Nested {
+			g, _ = scheduler.NewExecutionGraph(&scheduler.Stage{Name: "inc", Pipeline: g, AllowFailure: true})
+		}
+		sd := scheduler.NewScheduler(r)
+		sd.VerifSetPause(time.Millisecond)
+		appendLine(sc.Log, "CANCEL-CALLED")
+		obs.CancelReturnedMs = timedCancel(sd.Cancel)
+		appendLine(sc.Log, "CANCEL-RETURNED")
+		if obs.CancelReturnedMs < 0 {
+			emit()
+			os.Exit(0)
+		}
+		schedDone := make(chan error, 1)
+		go func() { schedDone <- sd.Schedule(g) }()
+		select {
+		case <-schedDone:
+			obs.ScheduleReturned = true
+		case <-time.After(bound):
+		}
+		obs.RunsReturned = obs.ScheduleReturned
+		for _, st := range stages {
+			obs.RunErrs = append(obs.RunErrs, st.ReadStatus() != scheduler.StatusDone)
+		}
+		obs.LateRunErr = true
 	case "sched", "sched-conderr":
 		var stages []*scheduler.Stage
 		var startNames []string
@@ -401,7 +447,7 @@ func cancelChild(args []string) {
 			seenReturn = true
 			continue
 		}
-		if seenReturn && (strings.HasPrefix(l, "start-") || strings.HasPrefix(l, "next-") || strings.HasPrefix(l, "third-") || strings.HasPrefix(l, "cmd-") || strings.HasPrefix(l, "end-") || l == "late-ran" || strings.HasPrefix(l, "late-hook-")) {
+		if seenReturn && (strings.HasPrefix(l, "start-") || strings.HasPrefix(l, "next-") || strings.HasPrefix(l, "third-") || strings.HasPrefix(l, "cmd-") || strings.HasPrefix(l, "cond-") || strings.HasPrefix(l, "end-") || l == "late-ran" || strings.HasPrefix(l, "late-hook-")) {
 			obs.StartedAfter = append(obs.StartedAfter, l)
 		}
 		if strings.HasPrefix(l, "start-w") || l == "start-c" {
@@ -556,6 +602,11 @@ func genCancelScenarios(tier string, rng *rand.Rand) []cancelScenario {
 			out = append(out, cancelScenario{Mode: "sched-conderr", Inflight: inflight, Waiting: waiting, Point: "in-command"})
 		}
 	}
+	// a cancellation that arrives while a task's condition is being evaluated
+	out = append(out, cancelScenario{Mode: "runner", Inflight: 1, Point: "in-condition"}, cancelScenario{Mode: "runner", Inflight: 2, Point: "in-condition", Allow: true},
+		cancelScenario{Mode: "sched", Inflight: 1, Waiting: 1, Point: "in-condition"})
+	// a cancellation that completed before the pipeline is run
+	out = append(out, cancelScenario{Mode: "sched-precancel", Point: "in-command"}, cancelScenario{Mode: "sched-precancel", Point: "in-command", Nested: true})
 	// the same inside a pipeline included by a stage of the pipeline being run
 	out = append(out, cancelScenario{Mode: "sched-conderr", Inflight: 0, Waiting: 1, Point: "in-command", Nested: true},
 		cancelScenario{Mode: "sched-conderr", Inflight: 2, Waiting: 1, Point: "in-command", Nested: true},
